@@ -44,6 +44,11 @@ func NewHTTPResponseBody(
 		}
 	case SerializeFormatPlainString:
 		s, err = NewExchangeRegexSchema(b)
+		if err == nil {
+			// An invalid regular expression has to be reported while the catalog
+			// is built, not when it is serialised.
+			err = s.Check()
+		}
 		if err != nil {
 			return HTTPResponseBody{}, adoptErrorForResponseBody(d, err)
 		}
